@@ -711,12 +711,17 @@ impl<S: Fam> Driver<'_, S> {
     }
 
     fn update(&mut self) {
+        let _ = miniconf_mqtt::verif::take();
+        let now = self.time.get();
         let tok = match self.client.update(&mut self.settings) {
             Ok(true) => "U:t",
             Ok(false) => "U:f",
             Err(_) => "U:err",
         };
-        self.log(tok);
+        // hook trace: environment observations made during this update + resulting state
+        let tr = miniconf_mqtt::verif::take();
+        let st = self.client.verif_state();
+        self.log(format!("{}{{{};now={};st={}:{}}}", tok, tr.join(","), now, st.0, st.1 as u8));
         self.world.borrow_mut().process();
     }
 
